@@ -66,12 +66,28 @@ Prog(name) ==
     [] name = "gnomonic_obj"   -> << <<"r", "geod">> >>
     [] name = "cassini_obj"    -> << <<"r", "cassini">>, <<"r", "geod">> >>
     [] name = "dst_obj"        -> << <<"r", "dst">> >>
+    \* data-file models (read once by the constructor), their circles, and const members that create line / circle objects
+    [] name = "gravmodel_obj"    -> << <<"r", "gm">>, <<"r", "roottable">> >>
+    [] name = "gravcircle_obj"   -> << <<"r", "gcirc">>, <<"r", "roottable">> >>
+    [] name = "gravmodel_circle" -> << <<"r", "gm">>, <<"r", "roottable">> >>
+    [] name = "magmodel_obj"     -> << <<"r", "mm">>, <<"r", "roottable">> >>
+    [] name = "magcircle_obj"    -> << <<"r", "mcirc">>, <<"r", "roottable">> >>
+    [] name = "magmodel_circle"  -> << <<"r", "mm">>, <<"r", "roottable">> >>
+    [] name = "geod_line_make"   -> << <<"r", "geod">> >>
+    [] name = "geodex_line_make" -> << <<"r", "geodex">> >>
+    [] name = "rhumb_line_make"  -> << <<"r", "rhumb">>, <<"c", "aux">> >>
+    [] name = "ps_obj"           -> << <<"r", "ps">> >>
+    [] name = "tmx_obj"          -> << <<"r", "tmx">> >>
+    [] name = "ell_obj"          -> << <<"r", "ell">>, <<"c", "aux">> >>
+    [] name = "normgrav_obj"     -> << <<"r", "ng">> >>
 
 Names == {"geod_wgs84", "geod_obj", "geodex_wgs84", "geodex_obj", "geodexact_true", "line_pos", "lineex_pos", "rhumb_wgs84",
           "rhumb_series", "rhumb_exact", "rhumbline_pos", "tm_utm", "tm_obj", "tmx_utm", "ps_ups", "lcc_mercator", "lcc_obj",
           "albers_cea", "albers_obj", "geoc_wgs84", "local_obj", "ell_wgs84", "aux_series", "aux_exact", "daux_series",
           "elliptic_obj", "normgrav_wgs84", "harmonic_obj", "circle_obj", "geoid_ts", "utmups_fwd", "mgrs_fwd", "osgb_fwd",
-          "dms_codec", "gridcodes", "azeq_obj", "gnomonic_obj", "cassini_obj", "dst_obj"}
+          "dms_codec", "gridcodes", "azeq_obj", "gnomonic_obj", "cassini_obj", "dst_obj",
+          "gravmodel_obj", "gravcircle_obj", "gravmodel_circle", "magmodel_obj", "magcircle_obj", "magmodel_circle",
+          "geod_line_make", "geodex_line_make", "rhumb_line_make", "ps_obj", "tmx_obj", "ell_obj", "normgrav_obj"}
 
 Threads == 1..NThreads
 
@@ -90,7 +106,7 @@ Statics == {"Geodesic::WGS84", "GeodesicExact::WGS84", "Rhumb::WGS84", "Transver
             "PolarStereographic::UPS", "LambertConformalConic::Mercator", "AlbersEqualArea::CylindricalEqualArea", "Geocentric::WGS84",
             "Ellipsoid::WGS84", "NormalGravity::WGS84", "OSGB::OSGBTM", "OSGB::northoffset", "Geohash::shift"}
 Objs == {"geod", "geodex", "line", "lineex", "rhumb", "rhumbline", "aux", "tm", "tmx", "ps", "lcc", "albers", "geoc", "local", "ell",
-         "ef", "ng", "sh", "roottable", "circle", "geoid", "dmstables", "gridtables", "cassini", "dst"}
+         "ef", "ng", "sh", "roottable", "circle", "geoid", "dmstables", "gridtables", "cassini", "dst", "gm", "mm", "gcirc", "mcirc"}
 
 \* the non-atomic memory access thread t performs in its NEXT micro-step: <<location, "R"/"W">> or <<>>
 NextAccess(t) ==
